@@ -318,8 +318,10 @@ CLI_OPS = ["run-all", "run-first-two", "run-last-two", "edit-1", "edit-2", "edit
 
 
 def cli_source(k, rev):
+    # the number of extra labels cycles 0, 1, 2, 0, ... with the revision: an edit makes the outputs longer or shorter
+    extra = "".join("    QLabel { text: \"extra %d\" }\n" % i for i in range(rev % 3))
     return ("import qmluic.QtWidgets\nQWidget {\n    windowTitle: \"doc %d <&> rev %d\"\n"
-            "    QCheckBox { id: cb }\n    QLabel { text: \"a\\r\\n'b' %d\"; visible: cb.checked }\n}\n" % (k, rev, k))
+            "    QCheckBox { id: cb }\n    QLabel { text: \"a\\r\\n'b' %d\"; visible: cb.checked }\n%s}\n" % (k, rev, k, extra))
 
 
 def cli_histories(tier):
@@ -343,10 +345,10 @@ def cli_work(shard, nshards, payload):
                 continue
             d = os.path.join(scratch, f"h{hi}")
             os.makedirs(d)
-            rev = {s_: 0 for s_ in stems}
+            rev = {s_: k for k, s_ in enumerate(stems)}        # First grows at its next edits, Third shrinks at once
             for k, s_ in enumerate(stems):
                 with open(os.path.join(d, s_ + ".qml"), "w") as f:
-                    f.write(cli_source(k, 0))
+                    f.write(cli_source(k, rev[s_]))
             for step, op in enumerate(hist):
                 if op.startswith("edit-"):
                     k = int(op[-1]) - 1
